@@ -42,7 +42,7 @@ type relayTopo struct {
 var topo = relayTopo{
 	uas:      []string{"10.1.0.1", "10.1.0.2", "10.1.7.9", "10.1.200.3"},
 	hops:     []string{"10.3.0.1", "10.3.0.2", "10.3.0.3"},
-	hopNames: map[string]string{"nh1.hops.test": "10.3.0.1", "nh2.hops.test": "10.3.0.2", "nh3.hops.test": "10.3.0.3"},
+	hopNames: map[string]string{"nh1.hops.test": "10.3.0.1", "nh2.hops.test": "10.3.0.2", "nh3.Hops.Test": "10.3.0.3"}, // one name with capitals: names are used as they are configured,
 	unknown:  []string{"10.9.0.1", "10.9.0.2", "10.9.3.3"},
 }
 
@@ -55,7 +55,7 @@ func genRelayCfg(g *gen, focus string) *Cfg {
 	}
 	for i := 0; i < nl; i++ {
 		l := ListenCfg{Addr: fmt.Sprintf("10.0.0.%d", i+1)}
-		switch g.intn(4) {
+		switch g.intn(5) {
 		case 0:
 			l.UDP = 5060
 		case 1:
@@ -64,6 +64,10 @@ func genRelayCfg(g *gen, focus string) *Cfg {
 		case 2:
 			l.UDP = 5062 + i
 			l.TCP = 5080 + i
+		case 3:
+			// the upper half of the port range
+			l.UDP = 33000 + 7*i + g.intn(3)
+			l.TCP = g.pick2(l.UDP, 61000+i, 65535-i)
 		default:
 			if focus == "C07" || g.chance(50) {
 				l.UDP = 6000 + i
@@ -99,6 +103,9 @@ func genRelayCfg(g *gen, focus string) *Cfg {
 	for i, l := range c.Listens {
 		if g.chance(60) {
 			h := HostCfg{Name: fmt.Sprintf("p%d.proxy.test", i+1), IP: l.Addr}
+			if g.chance(30) {
+				h.Name = fmt.Sprintf("Edge-P%d.Proxy.test", i+1) // used with this spelling everywhere
+			}
 			if g.chance(50) {
 				c.Hosts = append(c.Hosts, h)
 				if g.chance(20) {
@@ -133,7 +140,7 @@ func genRelayCfg(g *gen, focus string) *Cfg {
 	}
 	// every next-hop address may be a TCP destination
 	for _, ip := range topo.hops {
-		for _, port := range []int{5060, 5080} {
+		for _, port := range []int{5060, 5080, 45060} {
 			c.TCPSinks = append(c.TCPSinks, hostPort(ip, port))
 		}
 	}
@@ -408,7 +415,7 @@ func genRequest(g *gen, c *Cfg, o *relayGenOpts, learnedHosts []string) Op {
 		}
 		hp := hop
 		if g.chance(50) {
-			hp += ":" + g.pick("5060", "5080")
+			hp += ":" + g.pick("5060", "5080", "5080", "45060")
 		}
 		e := "<sip:" + hp
 		switch g.intn(8) {
@@ -460,7 +467,11 @@ func genRequest(g *gen, c *Cfg, o *relayGenOpts, learnedHosts []string) Op {
 			// prescribed; the entry is not the proxy's own, and the failed lookup must not disturb what follows)
 			routes = append(routes, "<sip:"+g.pick("gone.hosts.invalid", "nx.proxy.test")+":"+strconv.Itoa(l.port(proto))+";lr>")
 		case 0:
-			routes = append(routes, "<sip:"+l.Addr+":"+strconv.Itoa(l.port(proto)+1000)+";lr>")
+			off := 1000
+			if l.port(proto)+off > 65535 {
+				off = -1000
+			}
+			routes = append(routes, "<sip:"+l.Addr+":"+strconv.Itoa(l.port(proto)+off)+";lr>")
 		case 1:
 			routes = append(routes, "<sip:"+topo.hops[0]+":"+strconv.Itoa(l.port(proto))+";lr>")
 		default:
@@ -505,12 +516,19 @@ func genRequest(g *gen, c *Cfg, o *relayGenOpts, learnedHosts []string) Op {
 	}
 
 	// To host: decides static routing
-	toHost := g.pick("other.invalid", "example.com", "a.example.com", "b.example.com", "aXexample.com", "corp.test", "b.corp.test", "x.test", "default", "example.org")
+	toHost := g.pick("other.invalid", "example.com", "a.example.com", "b.example.com", "aXexample.com", "corp.test", "b.corp.test", "x.test", "default", "example.org",
+		"example.com.au", "a.example.community", "b.corp.testing", "xexample.com") // hosts that extend a configured destination at either end
 	toUser := g.user0()
 	fromURI := "sip:" + g.user0() + "@" + g.pick("ua.example.org", "10.1.0.1", "caller.test")
 	toURI := "sip:" + toUser + "@" + toHost
 	if g.chance(10) {
 		toURI = "tel:+1555" + strconv.Itoa(1000+g.intn(9000))
+		if g.chance(40) {
+			toURI = g.pick(toURI+";isub=12%2334", "urn:service:caf%C3%A9", "urn:uuid:00%41-"+g.alnum(2, 6)) // not a SIP URI, with escapes
+		}
+	}
+	if g.chance(6) {
+		fromURI = g.pick("tel:+1555"+strconv.Itoa(1000+g.intn(9000))+";isub=9%2a", "urn:service:kiosk%20"+g.alnum(1, 4))
 	}
 	if g.chance(10) {
 		toURI += ":5060"
@@ -575,7 +593,7 @@ func genRequest(g *gen, c *Cfg, o *relayGenOpts, learnedHosts []string) Op {
 			}
 		}
 		if g.chance(20) {
-			params += ";" + g.alnum(1, 5) + "=" + g.alnum(1, 6)
+			params += ";" + g.alnum(1, 5) + "=" + g.paramValue()
 		}
 		tr := strings.ToUpper(proto)
 		if i > 0 {
@@ -615,6 +633,9 @@ func genRequest(g *gen, c *Cfg, o *relayGenOpts, learnedHosts []string) Op {
 	parts.CLName = "Content-Length"
 	if o.rich && g.chance(25) {
 		parts.CLName = g.pick("l", "content-length", "CONTENT-LENGTH", "Content-length", "L")
+	}
+	if g.chance(5) {
+		parts.CLZeros = g.rng(1, 3) // 1*DIGIT: leading zeros are legal and the number stays decimal
 	}
 	data := g.assemble(parts)
 	if proto == "udp" && len(data) > 65000 {
@@ -685,7 +706,7 @@ func genResponse(g *gen, c *Cfg, o *relayGenOpts) Op {
 			}
 		}
 		if g.chance(20) {
-			params += ";" + g.alnum(1, 5) + "=" + g.alnum(1, 6)
+			params += ";" + g.alnum(1, 5) + "=" + g.paramValue()
 		}
 		vias = append(vias, viaEntry(tr, host, port, params))
 	}
@@ -702,7 +723,7 @@ func genResponse(g *gen, c *Cfg, o *relayGenOpts) Op {
 		{Name: "X-Sim-Id", Value: id},
 	}
 	parts := &msgParts{
-		Start:   fmt.Sprintf("SIP/2.0 %d %s", status, g.pick("OK", "Ringing", "Not Found", "Busy Here", "Session Progress", "Whatever it is")),
+		Start:   fmt.Sprintf("SIP/2.0 %d %s", status, g.reason(status)),
 		Via:     g.layoutList(vias, []string{"Via", "v", "VIA", "via"}, g.intn(3)),
 		Core:    core,
 		Shuffle: g.chance(30),
@@ -716,6 +737,9 @@ func genResponse(g *gen, c *Cfg, o *relayGenOpts) Op {
 	parts.CLName = "Content-Length"
 	if o.rich && g.chance(25) {
 		parts.CLName = g.pick("l", "content-length", "CONTENT-LENGTH")
+	}
+	if g.chance(5) {
+		parts.CLZeros = g.rng(1, 3)
 	}
 	data := g.assemble(parts)
 	if proto == "udp" && len(data) > 65000 {
